@@ -276,23 +276,28 @@ func VfStartPoint(tg *vfdoubles.Target, ids []string) string {
 func VfRenderWrite(e vfdoubles.LogEntry) (string, bool) {
 	a := e.Args
 	switch e.Cmd() {
+	// One request is atomic: the order of the fields inside a multi-field HSET / HDEL / DEL is
+	// not an observable of the property. Both sides render them sorted by name.
 	case "hset", "hsetnx", "hmset":
 		var kvs [][2]string
 		for i := 2; i+1 < len(a); i += 2 {
 			kvs = append(kvs, [2]string{string(a[i]), string(a[i+1])})
 		}
+		sort.SliceStable(kvs, func(i, j int) bool { return kvs[i][0] < kvs[j][0] })
 		return fmt.Sprintf("%s %d %s %s", e.Cmd(), e.DB, vfutil.Hex(a[1]), vfPairs(kvs)), true
 	case "hdel":
 		var fs []string
 		for _, f := range a[2:] {
 			fs = append(fs, string(f))
 		}
+		sort.Strings(fs)
 		return fmt.Sprintf("hdel %d %s %s", e.DB, vfutil.Hex(a[1]), VfHexList(fs)), true
 	case "del", "unlink":
 		var ks []string
 		for _, k := range a[1:] {
 			ks = append(ks, string(k))
 		}
+		sort.Strings(ks)
 		return fmt.Sprintf("del %d %s", e.DB, VfHexList(ks)), true
 	}
 	return "", false
